@@ -52,7 +52,7 @@ class C18(Prop):
     REAL_VS_STUB = {'real': ['dataflows/processors/parallelize.py (all of it)', 'Flow / iterable_loader / driver'],
                     'stub': ['multiprocessing.Queue/Process', 'threading.Thread/Lock/Event', 'queue.Queue', 'os.cpu_count/getpid', 'time (virtual clock)']}
     PROBES = ['line-preempt-run', 'clock-jumped', 'source-stalled', 'rowfunc-stalled', 'consumer-stalled', 'bypass-resource', 'default-num-processors',
-              'empty-stream', 'nothing-selected', 'first-selected-late', 'workers>rows', 'two-parallelize-stages', 'join-timeout-expired', 'rowfunc-raised']
+              'empty-stream', 'nothing-selected', 'first-selected-late', 'workers>rows', 'two-parallelize-stages', 'rowfunc-raised'] + ['strategy:' + x for x in sorted(set(STRATEGIES))]
     TIERS = {'quick': dict(runs=4000, wall=100, run_wall=60),
              'thorough': dict(runs=150000, wall=1700, run_wall=60)}
     SHRINK_FROZEN = ()
@@ -196,6 +196,7 @@ class C18(Prop):
             links.append(parallelize(row_func2, **kw2))
         links.append(sink)
         flow = Flow(*links)
+        ctx.probe('strategy:' + (sc.get('strategy') or 'uniform'))
         if n == 0:
             ctx.probe('empty-stream')
         if pk == 'nothing':
